@@ -22,6 +22,7 @@ from .values import (FALSE, NONE, TRUE, AbsList, AltV, BoundV, Const, FuncV, Lis
 from .icommon import (MAX_DEPTH, MAX_PATHS, PathAbort, _Break, _Continue, _Raise, _Return, _describe, _load,
                       _walk_own)
 from .interp_expr import ExprMixin
+from .interp_while import WhileMixin
 
 
 def _snapshot(v: V) -> V:
@@ -121,7 +122,7 @@ class KindEnv:
         return self.schema_desc(kind, fname)
 
 
-class Interp(ExprMixin):
+class Interp(ExprMixin, WhileMixin):
     def __init__(self, repo: Repo, schema: Schema, kinds: Optional[KindEnv] = None,
                  opaque_funcs: Tuple[str, ...] = (), summaries: Optional[Dict[str, V]] = None,
                  inline_depth: int = MAX_DEPTH):
@@ -380,17 +381,7 @@ class Interp(ExprMixin):
         elif isinstance(st, ast.For):
             self.exec_for(st, env, module)
         elif isinstance(st, ast.While):
-            self.event("while", where=module.loc(st))
-            # bounded unrolling: 0, 1 iterations then abandon (loops are outside the supported subset)
-            k = 0
-            while k < 2 and self.truthy(self.eval(st.test, env, module), st.test):
-                try:
-                    self.exec_block(st.body, env, module)
-                except _Break:
-                    break
-                except _Continue:
-                    pass
-                k += 1
+            self.exec_while(st, env, module)
         elif isinstance(st, ast.Try):
             self.exec_try(st, env, module)
         elif isinstance(st, (ast.FunctionDef, ast.AsyncFunctionDef)):
